@@ -317,7 +317,7 @@ pub fn run(ctx: &Ctx) -> i32 {
         property: "C11",
         tier,
         seed: ctx.seed,
-        scenarios: tier.pick(600, 20_000),
+        scenarios: tier.pick(6_000, 200_000),
         threads: super::threads(),
         watchdog: Duration::from_secs(120),
         budget: Duration::from_secs(tier.pick(90, 900)),
